@@ -9,6 +9,7 @@
 //   ini <ini path> <group|->          gQtLogger.configureFromIniFile(path[, group])
 //   inis <ini path> <group|->         QSettings s(path, IniFormat); gQtLogger.configure(s[, group])
 //   oneline <path|-> <size> <count> <options> <async>      gQtLogger.configure(path, size, count, options, async)
+//   codec <name>                      QTextCodec::setCodecForLocale(codecForName(name)) (e.g. ISO-8859-1)
 //   time <epoch seconds>              virtual wall clock (TZ=UTC)
 //   msg <d|w|c|i> <thread 0..3> <category|-> <text>        qDebug / qCInfo(cat) ... from that thread ("%s")
 //   end <exec|reset>                  exec: QTimer 0 -> quit, app.exec()  (aboutToQuit drains the own thread)
@@ -21,6 +22,7 @@
 #include <QCoreApplication>
 #include <QLoggingCategory>
 #include <QSettings>
+#include <QTextCodec>
 #include <QTimer>
 #include <condition_variable>
 #include <fstream>
@@ -120,6 +122,9 @@ int main(int argc, char **argv)
             std::string p; int size, count, opts, async; is >> p >> size >> count >> opts >> async;
             gQtLogger.configure(QString::fromUtf8(unhex(p)), size, count, RotatingFileSink::Options(opts), async != 0);
             if (!shapeFile.empty()) { std::ofstream o(shapeFile); o << shape() << " " << (gQtLogger.ownThreadIsRunning() ? 1 : 0) << "\n"; }
+        } else if (op == "codec") {
+            std::string n; is >> n;
+            if (auto *c = QTextCodec::codecForName(n.c_str())) QTextCodec::setCodecForLocale(c); else return 3;
         } else if (op == "time") { is >> g_sec; }
         else if (op == "msg") {
             std::string t, c, x; int w; is >> t >> w >> c >> x;
